@@ -252,3 +252,11 @@ add('S2P',
 add('S2PSIG',
     Rule('X-S2P', '&HashMap<(TagPos, &str), &Tag>', '&TagIndex'),
     Rule('X-S2P', 'key: &str', 'key: &String'))
+
+# X-BURST (unit kernels): burst tagger idioms
+add('BURST',
+    Rule('X-BURST', "Cow<'a, [Tag]>", "CowTags<'a>"),
+    Rule('X-BURST', 'Cow::Owned($e:e)', 'CowTags::Owned($e)'),
+    Rule('X-BURST', 'Cow::Borrowed($e:e)', 'CowTags::Borrowed($e)'),
+    Rule('X-BURST', '$a:i > self.threshold', 'f32_gt($a, self.threshold)'),
+    Rule('X-BURST', 'Tag::new(0, self.tag.clone(), TagValue::Bool($b:i))', 'bool_tag(&self.tag, $b)'))
